@@ -140,6 +140,9 @@ def run(ctx):
     gone = [e for e in gone if e.split("::")[0] in (CRATES_B if thorough else CRATES_A)]
     for e in gone:
         ctx.violation("C19.spellings", f"C19.spellings:{e}:gone", "", "string enum of the frozen table no longer has both conversions")
+    if ctx.tier == "thorough":
+        from .. import witness
+        witness.check(ctx, "C19.witness", {"C19PrivOwnedStr": "PrivOwnedStr is constructible from another crate: _Custom(known string) can be built, which compares unequal to the known variant"})
     ctx.assumptions += ["hand-written string enums (UriAction, VoipVersionId, TagName, JoinRule, ...) are not covered by the template rule",
                         "_Custom cannot be constructed with a known spelling from outside the crate (PrivOwnedStr is private: compile_fail witness in /verif/witnesses)"]
     ctx.samples += [{"enum": "MembershipState", "F": {"join": "Join"}, "G": {"Join": "join"}},
